@@ -21,13 +21,13 @@ checks = {
          "TLC model checking of PathRes + API replay comparing rendered descriptions + git rev-parse as judge on binary runs", "4-C08"),
  "C09": (MC, "Order is the only nondeterminism of Scan: TLC enumerates every permutation; every one is replayed into sizes.Graph and all orders of one graph must agree with each other and with the oracle.",
          "TLC enumeration of all delivery orders + relational API replay + layout/date variants through the binary", "4-C09"),
- "C10": ("fault_enumeration", "CliRun.tla models the run as a sequence of git invocations each of which may fail before/in/after its output (AllOrNothing, termination; refuted for the unrepaired code). On the real binary a fault-injecting git first on PATH enumerates every invocation x output offsets x failure modes (exit status, SIGKILL, SIGTERM, SIGPIPE, early stdin close); every reachable object is deleted in turn; shallow marker, missing repository, invalid options, gitconfig values and ROOTs; every run (exit status, stdout, stderr, invocation log) is judged by TLC (CliJudge) against the fault-free report. Pipeline.tla / Pipeline1.tla (the two scanning pipelines as communicating processes with bounded pipes; either git command may die at any point) and Proto.tla (the process-level protocol: every git invocation an action with an environment-chosen outcome, 768 command-line shapes) are model-checked for AllOrNothing and termination, and every recorded run is validated as a behaviour of Proto (ProtoTrace; a rejection is shape drift, not a verdict).",
-         "fault enumeration with a fake git on the real binary, runs judged by TLC against CliRun's predicates", "4-C10"),
+ "C10": ("fault_enumeration", "CliRun.tla models the run as a sequence of git invocations each of which may fail before/in/after its output (AllOrNothing, termination; refuted for the unrepaired code). On the real binary a fault-injecting git first on PATH enumerates every invocation x output offsets x failure modes (exit status, SIGKILL, SIGTERM, SIGPIPE, early stdin close); every reachable object is deleted in turn; shallow marker, missing repository, invalid options, gitconfig values and ROOTs; every run (exit status, stdout, stderr, invocation log) is judged by TLC (CliJudge) against the fault-free report. Pipeline.tla / Pipeline1.tla (the two scanning pipelines as communicating processes with bounded pipes; either git command may die at any point) and Proto.tla (the process-level protocol: every git invocation an action with an environment-chosen outcome, 768 command-line shapes) are model-checked for AllOrNothing and termination, and every recorded run is validated as a behaviour of Proto (ProtoTrace; a rejection is shape drift, not a verdict). Pipeline1X / PipelineX export every complete behaviour of the two pipelines as a schedule of process steps (read a root, write a line, answer a request, exit, die); each schedule is replayed into the real binary through gated git processes that take exactly those steps in exactly that order while the goroutines run freely: the run must end, with an error and no report if a process died, with the fault-free report otherwise.",
+         "fault enumeration with a fake git on the real binary judged by TLC against CliRun's predicates + replay of TLC-exported pipeline schedules through gated git processes", "4-C10"),
  "C11": (MC, "Output.tla lists the 22 metrics with reference values as exact rationals and states the visibility / marker / header / no-problems rules; OutputJudge judges in BigNat arithmetic what the real TableString, HistorySize.JSON and json.MarshalIndent produce for boundary-structured HistorySize vectors x 12 thresholds x styles (value cells judged with Human!Admissible against the JSON v1 value); the float-valued v2 fields and monotonicity in the threshold are compared harness-side.",
          "boundary vectors rendered by the real renderers and judged by TLC (Output/Human specs, exact arithmetic)", "4-C11"),
  "C12": (MC, "Human.tla states the rounding rules in exact BigNat arithmetic (largest prefix, decimals from the whole part, half-unit bound with both neighbours admissible on ties, >=3 significant digits, <=5 characters, monotone magnitude); HumanMC lets TLC generate the neighbourhoods of every rounding/precision/prefix boundary and checks satisfiability; every value (plus stratified random 64-bit values) is rendered by the real Humaner.FormatNumber and judged by TLC (HumanJudge), neighbours for monotonicity.",
          "TLC-generated boundary values rendered by the real FormatNumber and judged by TLC in exact arithmetic", "4-C12"),
- "C13": ("exploration", "Every repository flavour (plain, replace refs of commits/trees/blobs, grafts adding/dropping/redirecting parents, shallow marker) is addressed in 10 ways (top, subdirectory, inside .git, gitfile, GIT_DIR absolute/relative, git -C dir sizer, linked worktree and subdirectory, bare copy): byte-identical stdout across modes, equal to the ObjGraph oracle on the objects as stored (TLC, ScanJudge), the same again with ROOT arguments that git must resolve through possibly replaced or grafted commits (R^{tree}, R~1); the fake git's log, validated against Proto (ProtoTrace), shows --no-replace-objects, GIT_GRAFT_FILE=/dev/null and the real GIT_DIR on every invocation (shape); shallow is refused. CliRun.tla carries the corresponding invariants at design level only, so the claim is exploration of generated scenarios.",
+ "C13": ("exploration", "Every repository flavour (plain, replace refs of commits/trees/blobs, grafts adding/dropping/redirecting parents, shallow marker) (also a graft file named by the caller's GIT_GRAFT_FILE and a stale empty shallow marker) is addressed in 17 ways (top, subdirectory, inside .git, gitfile absolute/relative, GIT_DIR absolute / relative / '.' / a symbolic link / with GIT_WORK_TREE, git -C dir sizer, linked worktree and subdirectory, bare copy, start directory entered through symbolic links with the logical PWD a shell sets): byte-identical stdout across modes, equal to the ObjGraph oracle on the objects as stored (TLC, ScanJudge), the same again with ROOT arguments that git must resolve through possibly replaced or grafted commits (R^{tree}, R~1); the fake git's log, validated against Proto (ProtoTrace), shows --no-replace-objects, GIT_GRAFT_FILE=/dev/null and the real GIT_DIR on every invocation (shape); shallow is refused. CliRun.tla carries the corresponding invariants at design level only, so the claim is exploration of generated scenarios.",
          "addressing x flavour scenarios through the real binary under a logging fake git, reports judged by TLC against the stored-object oracle", "4-C13"),
  "C14": (MC, "Cli.tla defines the effective settings as a fold over the argument list with gitconfig consulted iff no option of the family is given, and the canonical command line; TLC enumerates argument sequences x gitconfig states per family, checks the laws, and exports each scenario with its canonical form or Error; each is run on the real binary as (gitconfig, args) and as canonical command line without gitconfig: byte-identical stdout, same progress, or failure exactly when the spec says so; documented equivalent spellings likewise.",
          "TLC-enumerated option/gitconfig scenarios run as paired executions of the real binary", "4-C14"),
